@@ -41,6 +41,30 @@ Plan reuse_generate(uint64_t base, const std::string &prop, uint64_t index, int 
         p.faults.push_back("F7:writer_restart");
         return p;
     }
+    if (ro.chance(1, tier ? 30 : 60)) {
+        // abandoned deep inside: a spine of nested objects walked down level by level, at and around the limits of the depth counter
+        static const int T[] = {15, 16, 17, 127, 128, 129, 253, 254, 255};
+        int n = T[ro.below(9)];
+        std::vector<std::string> f; int need = n;
+        p.root = 0;
+        for (int i = 0; i < n; i++) { p.doc.push_back(0x40); if (i + 1 < n) { p.doc.push_back(0x14); p.doc.push_back(0x01); p.doc.push_back('a'); } }
+        for (int i = 0; i < n; i++) p.doc.push_back(0x41);
+        p.doc2 = p.doc;
+        p.max_depth = ro.chance(1, 2) ? need : std::min(255, need + (int)ro.below(4));
+        p.prefill = rd.next() | 1;
+        p.ops.push_back(mk(P_INIT_OBJ, -1)); p.ops.push_back(mk(P_ENTER_OBJ));
+        int down = n - 1 - (int)ro.below(3); if (down < 1) down = 1;
+        for (int i = 0; i < down; i++) { p.ops.push_back(mk(P_NEXT)); p.ops.push_back(mk(P_ENTER_OBJ)); }
+        int rk = 1 + (int)ro.below(5); if (rk == 1 || rk == 4) rk = 2;      // reset / verify kinds (same bytes)
+        p.par["rk"] = rk; p.par["root2"] = 0;
+        p.ops2.push_back(mk(P_ENTER_OBJ));
+        int again = (int)ro.below((uint64_t)n + 2);
+        for (int i = 0; i < again; i++) { p.ops2.push_back(mk(P_NEXT)); p.ops2.push_back(mk(i % 7 == 6 ? P_GET_NAME : P_ENTER_OBJ)); }
+        p.ops2.push_back(mk(P_VERIFY));
+        p.faults.push_back(fmt("F7:abandon@depth=%d", down + 1));
+        p.faults.push_back("shape:deep");
+        return p;
+    }
     Node ta, tb; bool va, vb; int need_a = 1, need_b = 1, rootb = 0;
     std::vector<std::string> fb;
     p.doc = gen_document(rd, tier, p.root, &ta, va, p.faults, &need_a);
